@@ -740,6 +740,21 @@ pub fn c07_case(ctx: &mut Ctx, rng: &mut Rng, stage: &str) {
                     return;
                 }
                 ctx.total("id_pairs_compared", (nr * nl) as u64);
+                // a compiled dictionary is normally used after write/read: the decoded connector
+                // (portable or AVX2 decode path) must compute the same sums
+                match write_dict(&d).ok().and_then(|(b, _)| read_dict(&b).ok()).and_then(|r| r.ok()) {
+                    Some(d2) => {
+                        if let Some(m) = conn_mismatch(&d2, &refd) {
+                            ctx.violation(&format!("{name}_connector_differs_after_write_read"), &format!("C07:{name}_connector_differs_after_write_read"), m, cj(String::new()));
+                            return;
+                        }
+                        ctx.bucket("connector_compared_after_write_read");
+                    }
+                    None => {
+                        ctx.violation(&format!("{name}_dictionary_does_not_round_trip"), &format!("C07:{name}_dictionary_does_not_round_trip"), "write/read failed".into(), cj(String::new()));
+                        return;
+                    }
+                }
                 dicts.push((name, d));
             }
             BuildOutcome::Err(e) => {
@@ -930,6 +945,27 @@ pub fn c13_case(ctx: &mut Ctx, rng: &mut Rng) {
     let ign = rng.chance(0.4);
     let cfg = GenCfg { clean_space: ign, max_ids: 6, ..Default::default() };
     let mut case = gen_tokcase(rng, &cfg, 12, false);
+    if !ign && rng.chance(0.15) {
+        // large id spaces with many frequency ties (one single-character word per id)
+        let n = 34 + rng.below(40);
+        let cells: Vec<i16> = (0..n * n).map(|_| rng.range(-20, 20) as i16).collect();
+        let mut lex = vec![];
+        for i in 1..n {
+            lex.push(LexRow { surface: char::from_u32(0xE000 + i as u32).unwrap().to_string(), l: i as u16, r: (1 + (i * 7) % (n - 1)) as u16, cost: 0, feat: format!("W{i}") });
+        }
+        case.spec = DictSpec {
+            cats: vec![Cat { name: "DEFAULT".into(), invoke: false, group: false, length: 1 }],
+            def_order: vec![0],
+            ranges: vec![],
+            unk: vec![UnkRow { cat: 0, l: 0, r: 0, cost: 1000, feat: "U".into() }],
+            lex,
+            conn: Conn::Matrix { nr: n, nl: n, cells },
+        };
+        case.user = None;
+        case.mapping = None;
+        case.sentences = (0..12).map(|_| { let k = 1 + rng.below(2); (0..k).map(|_| char::from_u32(0xE000 + 1 + rng.below(n - 1) as u32).unwrap()).collect() }).collect();
+        ctx.bucket("large_id_space_with_ties");
+    }
     let has_space = case.spec.cat_index("SPACE").is_some();
     let o = Opts { ignore_space: ign && has_space && is_clean_space(&case.spec, case.user.as_deref()), mgl: case.opts[0].mgl };
     case.opts = vec![o];
